@@ -26,6 +26,13 @@ theorem dirty_requires_flag (cfg : Cfg) (all : List MFile) (hc : cfg.clean = fal
     (pending cfg all []).out = .error .notClean ∧ (pending cfg all []).baselineWrite = none := by
   simp [pending, firstRun, hc, hd, hb]
 
+/-- **pending_files_of_directory**: whatever the revision table, the options and the execution order are, every
+file `Pending` returns is a file of the directory - nothing is ever run that the (validated) directory does not
+hold. -/
+theorem pending_files_of_directory (cfg : Cfg) (all : List MFile) (revs : List Revision) (l : List MFile)
+    (h : (pending cfg all revs).out = .ok l) : ∀ f ∈ l, f ∈ all :=
+  pending_sub cfg all revs l h
+
 /-! ### what "not clean" is: the drivers' `CheckClean` (model `Atlas.Clean`) -/
 
 section Gate
